@@ -939,10 +939,15 @@ func c03RunChain(co *caseOut, in c03Input, r *rng) {
 					continue
 				}
 				okAll := true
-				for _, a := range absent {
-					if len(a) > 0 && bytes.HasPrefix(a, k[:4]) {
-						okAll = okAll && sound("proof of another key presented for an absent key", rec.root, a, proof, rec.dump, h)
-						break
+				// the proof of k presented for neighbouring keys (absent ones and present ones holding other values)
+				k1 := append(bytes.Clone(k), 0x00)
+				k2 := bytes.Clone(k)
+				k2[len(k2)-1]++
+				k3 := bytes.Clone(k)
+				k3[len(k3)-1] ^= 0x10
+				for _, a := range [][]byte{k[:len(k)-1], k1, k2, k3, present[(i+1)%len(present)], present[(i+len(present)-1)%len(present)]} {
+					if len(a) > 0 && !bytes.Equal(a, k) {
+						okAll = okAll && sound("proof of one key presented for another key", rec.root, a, proof, rec.dump, h)
 					}
 				}
 				if len(proof) > 0 {
